@@ -217,7 +217,7 @@ func scenarios(r *rt.Run) ([]scen, int) {
 	if r.Thorough() {
 		attempts = 4
 		// seeded random scenarios: random backlog sizes and stall depths
-		for i := 0; i < 400; i++ {
+		for i := 0; i < 800; i++ {
 			p := pipeOrder[r.Rand.Intn(len(pipeOrder))]
 			if p == "post" || p == "batch" {
 				continue
